@@ -164,3 +164,257 @@ class SetOwnerProcess(Contract):
                 ("group-change-precedes-setuid", TRUE if order_ok else FALSE),
                 ("initgroups-off=>supplementary-groups-untouched", Implies(Not(ig), TRUE if not did_ig else FALSE)),
                 ("initgroups-done=>groups-of-that-user-with-that-gid", (g["groups"] == groups_of(uid, gid)) if did_ig else TRUE)]
+
+
+# ======================================================================================================
+# WorkerTmp.__init__ (heartbeat file handed to the worker's user), UnixSocket.bind, BaseSocket.set_options, close_sockets
+# ======================================================================================================
+from .osmodel import add_path, fs_set, fs_get, path_label, _mkstemp   # noqa: E402
+from pyvc.values import HList, ClassV   # noqa: E402
+from pyvc.shapes import BoolShape, IntShape, ListShape   # noqa: E402
+
+
+def _umask(ex, st, self_v, args, kwargs, node):
+    old = st.ghost.get("umask", z3.Int("umask0"))
+    st.ghost["umask"] = args[0].t
+    st.ghost["events"] = list(st.ghost.get("events", [])) + [("umask", args[0].t)]
+    return R1(ex, st, SInt(old))
+
+
+def _mkstemp_named(ex, st, self_v, args, kwargs, node):
+    rs = _mkstemp(ex, st, self_v, args, kwargs, node)
+    st.ghost["events"] = list(st.ghost.get("events", [])) + [("mkstemp", st.ghost.get("umask"))]
+    return rs
+
+
+def _util_unlink(ex, st, self_v, args, kwargs, node):
+    st.ghost["events"] = list(st.ghost.get("events", [])) + [("unlink", args[0])]
+    return R1(ex, st, NONE)
+
+
+def _chown_ev(ex, st, self_v, args, kwargs, node):
+    p, u, g = args
+    bad = st.fork()
+    st.ghost["events"] = list(st.ghost.get("events", [])) + [("chown", p, u.t, g.t)]
+    return [ex.res(st, NONE), ex.res_exc(bad, oserror(_errno.EPERM))]
+
+
+def _fdopen_tmp(ex, st, self_v, args, kwargs, node):
+    st.ghost["events"] = list(st.ghost.get("events", [])) + [("fdopen",)]
+    return R1(ex, st, Opaque("tmpfile"))
+
+
+@contract("gunicorn.util:unlink", props=("C20",))
+class UtilUnlink(Contract):
+    """TRUSTED model: removes the name (errors ENOENT/ENOTDIR swallowed by the real function)"""
+    trusted = True
+
+    def effects(self, c):
+        c.st.ghost["events"] = list(c.st.ghost.get("events", [])) + [("unlink", c.a["filename"])]
+
+
+@contract("gunicorn.workers.workertmp:WorkerTmp.__init__", props=("C20",))
+class WorkerTmpInit(Contract):
+    def cases(self, env):
+        env.use_class("gunicorn.workers.workertmp", "WorkerTmp")
+        STUBS["os.umask"] = _umask
+        STUBS["posix.umask"] = _umask
+        STUBS["tempfile.mkstemp"] = _mkstemp_named
+        STUBS["os.chown"] = _chown_ev
+        STUBS["posix.chown"] = _chown_ev
+        STUBS["os.fdopen"] = _fdopen_tmp
+        st = State()
+        mk_creds(st, privileged=False)
+        st.ghost["fs"] = {}
+        st.ghost["fd_labels"] = {}
+        st.ghost["events"] = []
+        cfg = mk_cfg(env, st)
+        slf = st.alloc(HObj("WorkerTmp", {}))
+        return [("init", st, {"self": slf, "cfg": cfg}, {})]
+
+    def raises(self, c):
+        return [(RuntimeError, None), (OSError, None)]
+
+    def post(self, c):
+        g = c.st.ghost
+        cfg = c.a["cfg"]
+        uid, gid = c.field(cfg, "uid", c.old).t, c.field(cfg, "gid", c.old).t
+        ev = g["events"]
+        kinds = [e[0] for e in ev]
+        need = Or(uid != c.old.ghost["euid"], gid != c.old.ghost["egid"])
+        chowns = [e for e in ev if e[0] == "chown"]
+        did = TRUE if chowns else FALSE
+        before_unlink = True
+        if chowns and "unlink" in kinds:
+            before_unlink = kinds.index("chown") < kinds.index("unlink")
+        out = [("heartbeat-file-handed-to-the-worker's-user-iff-it-will-run-as-someone-else", need == did),
+               ("chown-happens-before-the-name-is-unlinked", TRUE if before_unlink else FALSE),
+               ("umask-restored-right-after-creating-the-file", TRUE if (kinds[:3] == ["umask", "mkstemp", "umask"]) else FALSE)]
+        if chowns:
+            out.append(("chown-to-exactly-the-configured-ids", And(chowns[0][2] == uid, chowns[0][3] == gid)))
+        return out
+
+
+class ListenSockModel(ClassModel):
+    def hasattr(self, ex, st, v, o, name):
+        return name in ("set_inheritable", "bind", "listen", "setsockopt", "setblocking", "close", "getsockname")
+
+    def call(self, ex, st, self_v, meth, args, kwargs, node):
+        o = st.obj(self_v)
+        ev = list(o.fields.get("g_events", STuple([])).items)
+        if meth in ("bind", "listen", "setsockopt", "setblocking", "set_inheritable", "close"):
+            rec = (meth,) + tuple(args)
+            o.fields["g_events"] = STuple(ev + [_Ev(rec)])
+            if meth == "close":
+                o.fields["g_closed"] = SBool(True)
+            bad = st.fork()
+            if meth in ("bind", "setsockopt", "close"):
+                return [ex.res(st, NONE), ex.res_exc(bad, oserror(_errno.EINVAL))]
+            return [ex.res(st, NONE)]
+        if meth == "getsockname":
+            return [ex.res(st, o.fields["g_name"])]
+        return None
+
+
+class _Ev(Opaque):
+    def __init__(self, rec):
+        Opaque.__init__(self, "ev")
+        self.rec = rec
+
+
+LSOCK = ListenSockModel()
+
+
+def mk_lsock(env, st, name):
+    env.class_models["lsock"] = LSOCK
+    return st.alloc(HObj("lsock", {"g_events": STuple([]), "g_closed": SBool(False), "g_name": name}))
+
+
+def sock_events(st, ref):
+    return [e.rec for e in st.obj(ref).fields["g_events"].items]
+
+
+@contract("gunicorn.sock:UnixSocket.bind", props=("C20",))
+class UnixBind(Contract):
+    def cases(self, env):
+        env.use_class("gunicorn.sock", "UnixSocket")
+        STUBS["os.umask"] = _umask
+        STUBS["posix.umask"] = _umask
+        STUBS["os.chown"] = _chown_ev
+        STUBS["posix.chown"] = _chown_ev
+        st = State()
+        st.ghost["events"] = []
+        cfg = mk_cfg(env, st)
+        addr = strops.fresh_str(st, "unix.path", True, nonempty=True)
+        slf = st.alloc(HObj("UnixSocket", {"conf": cfg, "cfg_addr": addr}))
+        return [("bind", st, {"self": slf, "sock": mk_lsock(env, st, addr)}, {})]
+
+    def raises(self, c):
+        return [(OSError, None)]
+
+    def post(self, c):
+        ev = c.st.ghost["events"]
+        cfg = c.old.obj(c.a["self"]).fields["conf"]
+        uid, gid, um = c.field(cfg, "uid", c.old).t, c.field(cfg, "gid", c.old).t, c.field(cfg, "umask", c.old).t
+        kinds = [e[0] for e in ev]
+        sev = [e[0] for e in sock_events(c.st, c.a["sock"])]
+        ok_shape = kinds == ["umask", "chown", "umask"] and sev == ["bind"]
+        out = [("bind-under-the-configured-umask-then-chown-then-restore", TRUE if ok_shape else FALSE)]
+        if ok_shape:
+            out += [("umask-is-the-configured-one", ev[0][1] == um), ("socket-file-owned-by-the-configured-user-and-group", And(ev[1][2] == uid, ev[1][3] == gid)),
+                    ("umask-restored", ev[2][1] == z3.Int("umask0"))]
+        return out
+
+
+@contract("gunicorn.sock:BaseSocket.set_options", props=("C14",))
+class SetOptions(Contract):
+    """every listener - freshly bound or adopted from an inherited fd - is made inheritable (so that a later USR2 can hand it on)"""
+    inline_callees = ("gunicorn.sock:BaseSocket.bind",)
+
+    def cases(self, env):
+        env.use_class("gunicorn.sock", "TCPSocket")
+        out = []
+        for bound in (False, True):
+            st = State()
+            cfg = mk_cfg(env, st)
+            cfg_o = st.obj(cfg)
+            cfg_o.fields["backlog"] = SInt(z3.Int("cfg.backlog"))
+            addr = strops.fresh_str(st, "addr", True)
+            slf = st.alloc(HObj("TCPSocket", {"conf": cfg, "cfg_addr": addr}))
+            out.append(("bound=%s" % bound, st, {"self": slf, "sock": mk_lsock(env, st, addr), "bound": SBool(bound)}, {}))
+        return out
+
+    def raises(self, c):
+        return [(OSError, None)]
+
+    def post(self, c):
+        sev = sock_events(c.st, c.a["sock"])
+        kinds = [e[0] for e in sev]
+        bound = c.ex.truth(c.a["bound"], c.st)
+        from pyvc.smt import const_bool
+        b = const_bool(bound)
+        out = [("listener-made-inheritable", TRUE if "set_inheritable" in kinds else FALSE),
+               ("listening", TRUE if "listen" in kinds else FALSE),
+               ("returns-the-socket", TRUE if isinstance(c.result, Ref) and c.result.oid == c.a["sock"].oid else FALSE)]
+        if b is not None:
+            out.append(("bind-iff-not-inherited", TRUE if (("bind" in kinds) == (not b)) else FALSE))
+        return out
+
+
+def _sock_type_stub(ex, st, self_v, args, kwargs, node):
+    # gunicorn.sock._sock_type(addr): UnixSocket for str/bytes addresses, TCP(6)Socket for tuples  (TRUSTED summary)
+    a = args[0]
+    mod = ex.env.repo.live("gunicorn.sock")
+    if isinstance(a, STuple):
+        return R1(ex, st, ClassV(mod.TCPSocket))
+    return R1(ex, st, ClassV(mod.UnixSocket))
+
+
+@contract("gunicorn.sock:_sock_type", props=("C04", "C14"))
+class SockType(Contract):
+    trusted = True
+
+    def result_shape(self, c):
+        mod = c.ex.env.repo.live("gunicorn.sock")
+        a = c.a["addr"]
+        return ClassV(mod.TCPSocket) if isinstance(a, STuple) else ClassV(mod.UnixSocket)
+
+
+@contract("gunicorn.sock:close_sockets", props=("C04", "C14"))
+class CloseSockets(Contract):
+    """every listener is closed; the file of every UNIX listener is unlinked iff `unlink` (whatever the order of TCP and
+    UNIX listeners in the list)"""
+
+    def cases(self, env):
+        from .osmodel import _os_unlink
+        out = []
+        for layout in (("unix",), ("tcp", "unix"), ("unix", "tcp", "unix"), ("tcp",)):
+            for unlink in (True, False):
+                st = State()
+                st.ghost["fs"] = {}
+                st.ghost["fd_labels"] = {}
+                st.ghost["unlinked"] = []
+                socks = []
+                for k, kind in enumerate(layout):
+                    if kind == "unix":
+                        name = strops.fresh_str(st, "unix%d" % k, True, nonempty=True)
+                        add_path(st, name, "U%d" % k)
+                        fs_set(st, "U%d" % k, TRUE, SStr([], False))
+                    else:
+                        name = STuple([strops.fresh_str(st, "host%d" % k, True), SInt(fresh_int("port"))])
+                    socks.append(mk_lsock(env, st, name))
+                lst = st.alloc(HList(socks))
+                out.append(("%s,unlink=%s" % ("+".join(layout), unlink), st, {"listeners": lst, "unlink": SBool(unlink)},
+                            {"layout": layout, "socks": socks}))
+        return out
+
+    def raises(self, c):
+        return [(OSError, None)]
+
+    def post(self, c):
+        layout, socks = c.g["layout"], c.g["socks"]
+        unl = c.st.ghost.get("unlinked", [])
+        want = ["U%d" % k for k, kind in enumerate(layout) if kind == "unix"] if c.ex.truth(c.a["unlink"], c.st) is TRUE or z3.is_true(c.ex.truth(c.a["unlink"], c.st)) else []
+        out = [("every-listener-closed", And(*[c.ex.truth(c.st.obj(s).fields["g_closed"], c.st) for s in socks])),
+               ("unix-socket-files-unlinked-iff-requested", TRUE if sorted(unl) == sorted(want) else FALSE)]
+        return out
